@@ -118,8 +118,9 @@ func (c *baseTrafficShapingController) performCheckingForConcurrencyMetric(arg i
 	initConcurrency := int64(0)
 	concurrencyPtr := c.metric.ConcurrencyCounter.AddIfAbsent(arg, &initConcurrency)
 	if concurrencyPtr == nil {
-		// First to access this arg
-		return nil
+		// First to access this arg: the fresh counter (nothing in flight yet) has just been
+		// stored; it is still subject to the threshold below.
+		concurrencyPtr = &initConcurrency
 	}
 	concurrency := atomic.LoadInt64(concurrencyPtr)
 	concurrency++
